@@ -4539,10 +4539,48 @@ void SoPlexBase<R>::getBasisInd(int* bind) const
    // class might be set to automatic
    else if(_solver.rep() == SPxSolverBase<R>::COLUMN)
    {
-      for(int i = 0; i < numRows(); ++i)
+      if(_solver.basis().isMatrixSetup())
       {
-         SPxId id = _solver.basis().baseId(i);
-         bind[i] = (id.isSPxColId() ? _solver.number(id) : - 1 - _solver.number(id));
+         for(int i = 0; i < numRows(); ++i)
+         {
+            SPxId id = _solver.basis().baseId(i);
+            bind[i] = (id.isSPxColId() ? _solver.number(id) : - 1 - _solver.number(id));
+         }
+      }
+      // after a modification of the LP the ids of the basic variables are stale; they are rebuilt from the basis
+      // descriptor (basic rows first, then basic columns) before the next basis query, so report them in that order
+      else
+      {
+         int k = 0;
+
+         for(int i = 0; i < numRows() && k <= numRows(); ++i)
+         {
+            if(_solver.isRowBasic(i))
+            {
+               if(k < numRows())
+                  bind[k] = -1 - i;
+
+               k++;
+            }
+         }
+
+         for(int j = 0; j < numCols() && k <= numRows(); ++j)
+         {
+            if(_solver.isColBasic(j))
+            {
+               if(k < numRows())
+                  bind[k] = j;
+
+               k++;
+            }
+         }
+
+         // a descriptor with the wrong number of basic variables is replaced by the slack basis
+         if(k != numRows())
+         {
+            for(int i = 0; i < numRows(); ++i)
+               bind[i] = -1 - i;
+         }
       }
    }
    // for row representation, return the complement of the row basis; for this, we need to loop through all rows and columns
